@@ -29,4 +29,27 @@ var items = []modItem{
 	{"RCON", Item{Dir: "net", Kind: "const", Func: "MaxRCONPackageSize", Name: "MaxRCONPackageSize"}},
 	{"RCON", Item{Dir: "net", Kind: "cond", Recv: "RCONConn", Func: "ReadPacket", Err: "packet too short", Name: "RCON_ReadPacket_tooShort"}},
 	{"RCON", Item{Dir: "net", Kind: "cond", Recv: "RCONConn", Func: "ReadPacket", Err: "packet too large", Name: "RCON_ReadPacket_tooLarge"}},
+	// ---- nbt (SNBT scanner) ----
+	{"SNBT", Item{Dir: "nbt", Kind: "const", Func: "scanContinue", Name: "scanContinue"}},
+	{"SNBT", Item{Dir: "nbt", Kind: "const", Func: "scanBeginLiteral", Name: "scanBeginLiteral"}},
+	{"SNBT", Item{Dir: "nbt", Kind: "const", Func: "scanBeginCompound", Name: "scanBeginCompound"}},
+	{"SNBT", Item{Dir: "nbt", Kind: "const", Func: "scanBeginList", Name: "scanBeginList"}},
+	{"SNBT", Item{Dir: "nbt", Kind: "const", Func: "scanListValue", Name: "scanListValue"}},
+	{"SNBT", Item{Dir: "nbt", Kind: "const", Func: "scanListType", Name: "scanListType"}},
+	{"SNBT", Item{Dir: "nbt", Kind: "const", Func: "scanCompoundTagName", Name: "scanCompoundTagName"}},
+	{"SNBT", Item{Dir: "nbt", Kind: "const", Func: "scanCompoundValue", Name: "scanCompoundValue"}},
+	{"SNBT", Item{Dir: "nbt", Kind: "const", Func: "scanSkipSpace", Name: "scanSkipSpace"}},
+	{"SNBT", Item{Dir: "nbt", Kind: "const", Func: "scanEndValue", Name: "scanEndValue"}},
+	{"SNBT", Item{Dir: "nbt", Kind: "const", Func: "scanEnd", Name: "scanEnd"}},
+	{"SNBT", Item{Dir: "nbt", Kind: "const", Func: "scanError", Name: "scanError"}},
+	{"SNBT", Item{Dir: "nbt", Kind: "const", Func: "parseCompoundName", Name: "parseCompoundName"}},
+	{"SNBT", Item{Dir: "nbt", Kind: "const", Func: "parseCompoundValue", Name: "parseCompoundValue"}},
+	{"SNBT", Item{Dir: "nbt", Kind: "const", Func: "parseListValue", Name: "parseListValue"}},
+	{"SNBT", Item{Dir: "nbt", Kind: "const", Func: "maxNestingDepth", Name: "maxNestingDepth"}},
+	{"SNBT", Item{Dir: "nbt", Kind: "func", Func: "isSpace", Name: "isSpace"}},
+	{"SNBT", Item{Dir: "nbt", Kind: "func", Func: "isNumber", Name: "isNumber"}},
+	{"SNBT", Item{Dir: "nbt", Kind: "func", Func: "isAllowedInUnquotedString", Name: "isAllowedInUnquotedString"}},
+	{"SNBT", Item{Dir: "nbt", Kind: "func", Func: "isFloatType", Name: "isFloatType"}},
+	{"SNBT", Item{Dir: "nbt", Kind: "func", Func: "isIntegerType", Name: "isIntegerType"}},
+	{"SNBT", Item{Dir: "nbt", Kind: "cond", Recv: "scanner", Func: "pushParseState", Err: "", Name: "pushParseState_ok"}},
 }
